@@ -51,13 +51,20 @@ constexpr auto sqrt_check(T const x, T const mVal) noexcept -> T
                      //
             is_posinf(x) ? x
                          :
-                         // indistinguishable from zero or one
-            etl::numeric_limits<T>::epsilon() > abs(x)      ? T(0)
-        : etl::numeric_limits<T>::epsilon() > abs(T(1) - x) ? x
-                                                            :
-                                                            // else
-            x > T(4) ? sqrt_check(x / T(4), T(2) * mVal)
-                     : mVal * sqrt_recur(x, x / T(2), 0)
+                         // zeros keep their sign
+            x == T(0) ? x
+                      :
+                      // indistinguishable from one
+            etl::numeric_limits<T>::epsilon() > abs(T(1) - x) ? x
+                                                              :
+                                                              // reduce the argument to [1/4, 4] by exact scalings with
+                                                              // powers of four (the Newton iteration stops on an
+                                                              // absolute tolerance)
+            x > T(18446744073709551616.0)             ? sqrt_check(x / T(18446744073709551616.0), T(4294967296.0) * mVal)
+        : x > T(4)                                    ? sqrt_check(x / T(4), T(2) * mVal)
+        : x < T(1) / T(18446744073709551616.0)        ? sqrt_check(x * T(18446744073709551616.0), mVal / T(4294967296.0))
+        : x < T(0.25)                                 ? sqrt_check(x * T(4), mVal / T(2))
+                                                      : mVal * sqrt_recur(x, x / T(2), 0)
     );
 }
 
